@@ -533,7 +533,7 @@ def main(tier, seed):
         run.absorb(part)
     progs = list(PROGRAMS)
     rng = random.Random(seed)
-    nrand = 24 if tier == "quick" else 200
+    nrand = 24 if tier == "quick" else 2500
     for i in range(nrand):
         progs.append(random_program(rng, i))
     for part in pmap("vf.checks.c14", "work_infer",
